@@ -458,3 +458,9 @@ def run(R):
     with R.guard('C02.R8'):
         import C01
         C01.run_codec_tables(R, tonic, tag='@C02', rule='C02.R8')
+
+    # ---------------------------------------------------------------- R9 trailing metadata through the grpc-web translation
+    R.describe('C02.R9', 'a status (with its metadata) that travels in a grpc-web trailers frame is written entry by entry: every value of every name on a line of its own (C16.R4 instances re-evaluated under this id)')
+    with R.guard('C02.R9'):
+        import C16
+        C16.check_trailer_writer(R, R.crate('tonic_web'), 'C02.R9')
